@@ -64,12 +64,11 @@ func H_QuoteVerbatim() {
 	rtAssert("quoted-renders", rerr == nil)
 	if rerr == nil {
 		rtObserve("sql", sql)
-		const prefix = "\"f\" = "
-		okp := len(sql) > len(prefix) && sql[:len(prefix)] == prefix
-		rtAssert("quoted-sql-shape", okp)
+		ast, _, okp := pgParse(sql)
+		okp = okp && ast.kind == qCmp && ast.op == "=" && ast.a.kind == qCol && ast.b.kind == qStr
+		rtAssert("quoted-sql-shape", okp && ast.a.text == "f")
 		if okp {
-			val, end, ok := pgStringConst(sql, len(prefix))
-			rtAssert("quoted-sql-constant-verbatim", ok && end == len(sql) && val == w)
+			rtAssert("quoted-sql-constant-verbatim", ast.b.text == w)
 		}
 	}
 	psql, params, perr := lucene.ToParameterizedPostgres(text)
@@ -81,7 +80,8 @@ func H_QuoteVerbatim() {
 			s, isStr := params[0].(string)
 			ok = isStr && s == w
 		}
-		rtAssert("quoted-param-verbatim", psql == "\"f\" = ?" && ok)
+		past, np, pok := pgParse(psql)
+		rtAssert("quoted-param-verbatim", pok && np == 1 && past.kind == qCmp && past.op == "=" && past.a.kind == qCol && past.a.text == "f" && past.b.kind == qParam && ok)
 	}
 	rtReach("end")
 }
